@@ -1,6 +1,7 @@
 """C02 — every message of a text log printed exactly once, byte for byte. Engines: E-SEQ (+ E-CLI leg)."""
 import json
 import os
+import re
 import shutil
 import subprocess
 
@@ -68,10 +69,73 @@ def cli_leg(res, tier, prop):
                                   "real binary: stdout at --blocksz %d (%d bytes) differs from stdout at the default block size (%d bytes)" % (b, len(r.out), len(base.get(ent["name"]) or b"")),
                                   {"engine": "E-CLI", "args": ["--color", "never", "-t", "+00:00", "--blocksz", str(b), ent["name"]],
                                    "files": {ent["name"]: common.b64(data)}, "expected_stdout": common.b64(base.get(ent["name"]) or b"")})
+        if prop == "C12":
+            n += color_leg(res, tier, work, idx)
         res.coverage["cli_leg_runs"] = n
         res.sample({"level": "cli", "argv": ["--color", "never", "-t", "+00:00", "--blocksz", "65", idx[3]["name"]], "file_len": idx[3]["len"], "messages": idx[3]["n"]})
     finally:
         shutil.rmtree(work, ignore_errors=True)
+
+
+_ESC = re.compile(rb"\x1b\[[0-9;]*m")
+
+
+def color_leg(res, tier, work, idx):
+    """C12 with --color always: the coloured stdout (escape sequences included) at every block size of a dense
+    range must equal the coloured stdout at the default block size."""
+    import gen
+    ents = [e for e in idx if e["n"] >= 2 and e["first_head"] == 0 and e["len"] < 700][: (120 if tier == "quick" else 600)]
+    bszs = list(range(64, 97)) if tier == "quick" else list(range(64, 140))
+    E = gen.EPOCH_2000 * 1000
+    # small files whose timestamps end exactly at / one before / one after a block end for some block size of the range
+    for nm in (2, 3, 4):
+        for extra in ([], [b"cont"]):
+            for ll in (35, 36, 37):
+                name = "k%d%d%d.log" % (nm, len(extra), ll)
+                data = gen.text_log([(E + i * 1000, b"a" * ll, extra) for i in range(nm)])
+                common.write_file(os.path.join(work, name), data)
+                ents.append({"name": name, "n": nm, "first_head": 0, "len": len(data), "first_head_line_end": 26 + ll + 1, "input": "small"})
+    # one longer file of 40 messages with varied line lengths
+    data = gen.text_log([(E + i * 1000, b"x" * (i * 7 % 90) + b" end", [b"cont " + b"y" * (i * 11 % 70)] if i % 3 == 0 else []) for i in range(40)])
+    common.write_file(os.path.join(work, "col40.log"), data)
+    ents.append({"name": "col40.log", "n": 40, "first_head": 0, "len": len(data), "first_head_line_end": 31, "input": "col40"})
+    base = {}
+
+    def one(it):
+        ent, b = it
+        return ent, b, common.run_s4(["--color", "always", "-t", "+00:00", "--blocksz", str(b), ent["name"]], cwd=work)
+    for ent, b, r in common.pmap(one, [(e, 65536) for e in ents]):
+        base[ent["name"]] = r.out
+    n = 0
+    for ent, b, r in common.pmap(one, [(e, b) for e in ents for b in bszs]):
+        n += 1
+        res.count()
+        ref = base[ent["name"]]
+        if r.out == ref:
+            continue
+        if ent["first_head_line_end"] > b:
+            continue   # rejected at this block size: reported by the uncoloured leg
+        data = open(os.path.join(work, ent["name"]), "rb").read()
+        only_esc = _ESC.sub(b"", r.out) == _ESC.sub(b"", ref)
+        feats = {"level": "cli", "color": "always", "symptom": "escape-sequences-differ" if only_esc else "bytes-differ", "input": ent.get("input", "corpus")}
+        if only_esc:
+            # which lines differ, and where does their timestamp end relative to a block boundary?
+            la, lb = ref.split(b"\n"), r.out.split(b"\n")
+            flines = data.split(b"\n")
+            offs, o = [], 0
+            for l in flines:
+                offs.append(o)
+                o += len(l) + 1
+            at_boundary = []
+            for i, (x, y) in enumerate(zip(la, lb)):
+                if x != y and i < len(flines):
+                    dt_end = offs[i] + 24       # `[` + 23 characters of timestamp; exclusive end
+                    at_boundary.append(flines[i].startswith(b"[") and dt_end % b == 0)
+            feats["every_differing_line_has_timestamp_ending_at_block_end"] = bool(at_boundary) and all(at_boundary)
+        res.violation(feats, "--color always: stdout at --blocksz %d differs from stdout at the default block size (%s)" % (b, feats["symptom"]),
+                      {"engine": "E-CLI", "args": ["--color", "always", "-t", "+00:00", "--blocksz", str(b), ent["name"]],
+                       "files": {ent["name"]: common.b64(data)}, "expected_stdout": common.b64(ref)})
+    return n
 
 
 def run(tier, seed, build=True, prop=PROP, sub=SUB):
